@@ -558,6 +558,8 @@ pub fn build_world(r: &mut Rng, cfg: &WorldCfg) -> Built {
         threads,
         regions,
         plants: Vec::new(),
+        // the vsyscall page is execute-only for everybody: no remote read reaches it
+        no_remote: vec![(VSYSCALL, 0x1000)],
         files,
         fds,
         auxv,
